@@ -273,8 +273,9 @@ fn gen_op(h: &mut Hist, r: &mut Rng, left_fill: bool) -> Op {
                 return Op::ExtRepeatSlice(i, h.fresh_list(k), reps);
             }
             17 => {
+                // mostly short ranges away from the front (the tail of the rotation stays visible)
                 let a = r.below(len + 1);
-                let b = a + r.below(len - a + 1);
+                let b = a + if r.chance(2, 3) { r.below((len - a).min(1) + 1) } else { r.below(len - a + 1) };
                 return Op::Remove(i, a, b);
             }
             24 | 25 => {
@@ -320,6 +321,8 @@ fn corpus() -> Vec<Vec<Op>> {
         vec![New(l(&[1, 2, 3])), Clear(0), Clone(0), New(l(&[4, 5, 6])), Slice(2, 1, 2), Drop(2, false), Clear(2), New(l(&[7])), Clone(3), Clear(3)],
         // split_off, remove, reserve on shared and unique
         vec![New(l(&[1, 2, 3, 4])), Clone(0), SplitOff(0, 1), Remove(1, 1, 3), Reserve(1, 2), Reserve(2, 0), SplitOff(2, 3), Remove(0, 0, 1)],
+        // remove on a uniquely owned window with a hidden prefix must not run in place (modify needs start == 0)
+        vec![New(l(&[1, 2, 3, 4, 5])), Slice(0, 2, 5), Drop(0, false), Remove(0, 2, 2), New(l(&[1, 2, 3, 4, 5, 6])), Slice(1, 2, 6), Drop(1, false), Remove(1, 2, 3), ExtSlice(1, l(&[9]))],
         // extend_from_cowslice with a handle on the same buffer
         vec![New(l(&[1, 2, 3])), Clone(0), ExtCow(0, 1), New(l(&[4])), ExtCow(0, 1), Slice(0, 1, 2), ExtCow(1, 0)],
     ]
@@ -597,8 +600,9 @@ fn gen_num_base(r: &mut Rng, rank_max: usize, small_ints: bool) -> Value {
         .map(|_| match mode {
             0 => r.below(2) as f64,
             1 | 2 => r.below(5) as f64,
-            3 => r.below(256) as f64,
-            4 if !small_ints => *r.pick(&[0.5, -1.0, 2.0, 1e9, 255.0, 256.0, -0.0, 3.25]),
+            // large values only in tiny arrays: they also serve as shapes / counts
+            3 => if n <= 1 { r.below(256) as f64 } else { r.below(12) as f64 },
+            4 if !small_ints => *r.pick(&[0.5, -1.0, 2.0, 300.0, 11.0, 256.0, -0.0, 3.25]),
             _ => r.below(4) as f64,
         })
         .collect();
@@ -773,6 +777,8 @@ fn fixed_bases() -> Vec<Value> {
         num(&[], &[2.]),
         num(&[4], &[0., 1., 1., 0.]),
         num(&[2, 0], &[]),
+        num(&[], &[3.25]),
+        num(&[], &[224.]),
     ]
 }
 
@@ -793,7 +799,7 @@ fn search(n: usize, seed: u64) {
     // dyadic: fixed pairs and n/2+1 random pairs (all 18 x 18 variant pairs each)
     let fb = fixed_bases();
     for prog in DYADIC {
-        for (i, j) in [(0usize, 1usize), (3, 0), (6, 4), (7, 7), (0, 0)] {
+        for (i, j) in [(0usize, 1usize), (3, 0), (6, 4), (7, 7), (0, 0), (9, 10)] {
             differential(&mut s, prog, &[fb[i].clone(), fb[j].clone()]);
         }
         for _ in 0..(n / 3 + 1) {
@@ -847,6 +853,8 @@ fn leftfill() {
         ("reduce-minmax-byte-empty-rows", "≡/↧ ≡(↘2) [1_2 3_4]", "[∞ ∞]"),
         ("reduce-minmax-byte-empty-rows", "≡/↥ ↙2_0 [1_2 3_4]", "[¯∞ ¯∞]"),
         ("reduce-minmax-byte-empty-rows", "≡/× ≡(↘2) =1[1_0 0_1]", "[1 1]"),
+        // open: integer exponent stored as byte uses powi, as float powf
+        ("pow-byte-exponent-powi", "ⁿ 224 3.25", "ⁿ ÷2 448 3.25"),
         // controls: the same operations on shared or full buffers, and right fills
         ("control", "⬚⌞0↙4 ↘1 [1 2 3]", "[0 0 2 3]"),
         ("control", "⬚0↙4 ↘2 +0.5⇡4", "[2.5 3.5 0 0]"),
